@@ -795,6 +795,7 @@ def with_mc3(pid, f):
         scope = [q for q in sorted(proj.modules) if any(q == x or q.startswith(x + '.') for x in MC3_SCOPE[pid])] if tier == 'quick' else sorted(proj.modules)
         round3b.dtf1(proj, rep, MC3_SCOPE[pid] if tier == 'quick' else None)
         round3b.cast1(proj, rep, MC3_SCOPE[pid] if tier == 'quick' else None)
+        round3b.cj1(proj, rep, MC3_SCOPE[pid] if tier == 'quick' else None)
         ns = round3b.self1(proj, rep, MC3_SCOPE[pid] if tier == 'quick' else None)
         if tier != 'quick':
             rep.floor('SELF1 sites scanned in the package', ns, 1500)
